@@ -2128,7 +2128,7 @@ fn write_symbols<'data>(
     {
         let symbol_id = object.symbol_id_range.input_to_id(sym_index);
 
-        if layout.symbol_db.args.got_plt_syms {
+        if layout.symbol_db.args.should_emit_got_plt_syms() {
             write_got_plt_syms(layout, symbol_writer, symbol_id)?;
         }
         if let Some(info) = SymbolCopyInfo::new(
@@ -5450,7 +5450,7 @@ fn write_internal_symbols_plt_got_entries<'data, A: Arch<Platform = Elf>>(
                 })?;
         }
 
-        if layout.symbol_db.args.got_plt_syms {
+        if layout.symbol_db.args.should_emit_got_plt_syms() {
             write_got_plt_syms(layout, &mut table_writer.debug_symbol_writer, symbol_id)?;
         }
     }
@@ -5472,7 +5472,7 @@ fn write_dynamic_file<'data, A: Arch<Platform = Elf>>(
         .resolutions_in_range(object.symbol_id_range)
         .zip(object.object.symbols.iter())
     {
-        if layout.symbol_db.args.got_plt_syms {
+        if layout.symbol_db.args.should_emit_got_plt_syms() {
             write_got_plt_syms(layout, &mut table_writer.debug_symbol_writer, symbol_id)?;
         }
         if let Some(res) = resolution {
